@@ -1,10 +1,8 @@
-(* C04 - pinned statements (set semantics of the unweighted sketchers).
-   SetSketch and the densified sketchers: proved here.  SuperMinHash / SuperMinHash2: the
-   characterisation theorems are not yet part of this file (see DESIGN.md); their set semantics
-   is currently decided by the correspondence and the implementation-level search only. *)
+(* C04 - pinned statements (set semantics of the five unweighted sketchers). *)
 From Coq Require Import List ZArith Bool.
 From PMH Require Import Lib.ListArr Model.SetSketch Proofs.SetSketch
-  Model.SuperMinHash Model.DensMinHash Gen.FlagsSmh Gen.FlagsDens Proofs.DensMinHash.
+  Model.ProbMinHash Proofs.ProbMinHash Model.SuperMinHash Model.SuperMinHash2 Model.DensMinHash
+  Gen.FlagsSmh Gen.FlagsDens Proofs.DensMinHash Proofs.SuperMinHash Proofs.SuperMinHash2.
 Import ListNotations.
 Open Scope Z_scope.
 
@@ -30,6 +28,38 @@ Theorem C04_dens_holds_streamed_hash : forall m large its s k, items_ok m its ->
   nthb (d_init s) k = true -> exists r, In (r, k, nthz (d_v s) k) its /\ nthz (d_h s) k = r.
 Proof. exact dens_holds_streamed. Qed.
 
+(* SuperMinHash (values (key, integer part), integer part = F key for a monotone F): same set of
+   item scripts, any order / repetition => the same value on every position *)
+Theorem C04_superminhash_set_semantics : forall (F : Z -> Z), (forall a b, a <= b -> F a <= F b) -> (forall a, 0 <= F a) ->
+  forall large, snd large = F (fst large) ->
+  forall m its its' s s', (1 <= m)%nat -> Z.of_nat m <= snd large ->
+  (forall sc, In sc its -> itemF_ok F large m sc) -> (forall sc, In sc its' -> itemF_ok F large m sc) ->
+  (forall x, In x its <-> In x its') ->
+  bind (smh_new m large) (fun s0 => smh_items s0 its) = Ok s ->
+  bind (smh_new m large) (fun s0 => smh_items s0 its') = Ok s' ->
+  forall x, (x < m)%nat -> fst (nthp (sm_h s) x) = fst (nthp (sm_h s') x).
+Proof. exact smh_set_semantics. Qed.
+
+(* SuperMinHash2: same set of (hash, rounds) items => same (round, value) keys, and the same stored
+   hashes wherever no two items tie; every position that saw a draw holds a streamed item's hash *)
+Theorem C04_superminhash2_set_semantics : forall m its its' s s', (1 <= m)%nat ->
+  (forall it, In it its -> item2_ok m it) -> (forall it, In it its' -> item2_ok m it) ->
+  (forall x, In x its <-> In x its') ->
+  bind (smh2_new m) (fun s0 => smh2_items s0 its) = Ok s ->
+  bind (smh2_new m) (fun s0 => smh2_items s0 its') = Ok s' ->
+  pregs (abs2 s) = pregs (abs2 s') /\
+  ((forall k, (k < m)%nat -> tie_free (alltags_s2 its) (Z.of_nat m * W - 1) k) -> s2_h s = s2_h s').
+Proof. exact smh2_set_semantics. Qed.
+
+Theorem C04_superminhash2_holds_streamed_hash : forall m its s k, (1 <= m)%nat -> (forall it, In it its -> item2_ok m it) ->
+  bind (smh2_new m) (fun s0 => smh2_items s0 its) = Ok s -> (k < m)%nat ->
+  (exists id h, In (id, h, k) (alltags_s2 its) /\ h < Z.of_nat m * W - 1) ->
+  exists h, In (nthz (s2_h s) k, h, k) (alltags_s2 its).
+Proof. exact smh2_holds_streamed_hash. Qed.
+
+Print Assumptions C04_superminhash_set_semantics.
+Print Assumptions C04_superminhash2_set_semantics.
+Print Assumptions C04_superminhash2_holds_streamed_hash.
 Print Assumptions C04_source_flags.
 Print Assumptions C04_setsketch_set_semantics.
 Print Assumptions C04_dens_set_semantics.
